@@ -307,7 +307,7 @@ def fold(ctx, res, props, corr_name):
     # a disagreement with the session model on an output the property is about is a concrete failing history: the model's
     # output is proved to satisfy the property (C10_gap: resend from the first missing number; C05_header: the identifiers
     # of the latest accepted Logon), so an implementation that differs *there* violates it. The replay is the history.
-    if cb and ctx.prop in ("C10", "C05"):
+    if cb and ctx.prop in ("C10", "C05", "C06"):
         ops_path = os.path.join(res["dir"], "ops.txt")
         all_ops = open(ops_path).read().split("\n") if os.path.exists(ops_path) else []
         def msgs(line):
@@ -329,6 +329,17 @@ def fold(ctx, res, props, corr_name):
                 if gm != gi and " in " in op:
                     ctx.violations.append({"sig": f"C10 gap-resend-differs model={gm} impl={gi}", "detail": f"gap-resend-differs: after this history the session must ask for a resend {gm} (BeginSeqNo, EndSeqNo in hex; session model, theorem C10_gap), the implementation sent {gi}",
                                            "replay": {"ops": hist[-60:], "expected": [want], "model": [got], "harness": res.get("harness"), "kind": "gap-resend-differs"}})
+            if ctx.prop == "C06" and " in " in op:
+                # "… | S <logged> …": the model logs on (an acceptable, approved Logon: theorem C06_acceptor_reply) and the
+                # implementation does not, or the other way round
+                def logged(line):
+                    part = [x for x in line.split(" | ") if x.startswith("S ")]
+                    return part[0].split()[1] if part else None
+                li, lm = logged(want), logged(got)
+                if li is not None and lm is not None and li != lm:
+                    what = "acceptable-logon-refused" if lm == "1" else "logged-on-without-acceptable-logon"
+                    ctx.violations.append({"sig": f"C06 {what} model-logged={lm} impl-logged={li} {op[:120]}", "detail": f"{what}: after this Logon the session must report logged-on={lm} (session model, theorems C06_acceptor_reply / C06_logged_only_after_acceptable_logon), the implementation reports {li}; its answer: {want.split(' | ')[0][:200]}",
+                                           "replay": {"ops": hist[-60:], "expected": [want], "model": [got], "harness": res.get("harness"), "kind": what}})
             if ctx.prop == "C05":
                 ni, nm = [m.get("34") for m in impl], [m.get("34") for m in model]
                 if len(ni) == len(nm) and ni != nm:
